@@ -185,6 +185,30 @@ pub fn redeclarations(oracle: Oracle) -> Box<dyn Space> {
     space("G-PROG/redeclarations/prelude", count, 8, desc, Box::new(gen), oracle)
 }
 
+/// Programs that bind k names of the standard gate library before including it (the include
+/// then reports k redeclarations, whose order must be fixed).
+pub fn library_clashes(oracle: Oracle) -> Box<dyn Space> {
+    const NAMES: [&str; 8] = ["h", "x", "cx", "rz", "swap", "u3", "ccx", "id"];
+    let desc = json!({"space": "G-PROG library clashes", "names": NAMES, "counts": [1, 2, 3, 8], "forms": ["int", "gate"]});
+    let gen = move |i: u64| -> Option<ProgCase> {
+        let k = [1usize, 2, 3, 8][(i / 2) as usize];
+        let as_gate = i % 2 == 1;
+        let mut stmts = vec![Stmt::Qubit { size: None, name: "r".into() }];
+        for n in NAMES.iter().take(k) {
+            stmts.push(if as_gate {
+                Stmt::Gate { name: n.to_string(), params: None, qubits: vec!["y1".into()], body: vec![] }
+            } else {
+                Stmt::Decl { konst: false, ty: Ty::plain("int"), name: n.to_string(), init: None }
+            });
+        }
+        stmts.push(Stmt::Include("\"stdgates.inc\"".into()));
+        stmts.push(Stmt::Reset(crate::model::prog::Operand::Id("r".into())));
+        stmts.push(Stmt::Include("\"stdgates.inc\"".into()));
+        Some(ProgCase { stmts, tag: format!("library-clash[{}]/{}", if as_gate { "gate" } else { "int" }, k) })
+    };
+    space("G-PROG/library-clashes", 8, 1, desc, Box::new(gen), oracle)
+}
+
 fn rename_decl(st: &mut Stmt, pos: usize) {
     let sfx = format!("_{}", pos);
     match st {
